@@ -117,19 +117,21 @@ def bounded_nested(seed, n):
         kind = rng.choice(("Point", "Line", "HalfLine", "Segment", "Plane"))
         return next(K.flat_objects(kind, rng, 1))
 
-    sources = []
+    # every designed configuration of every family, then a deterministic shuffle (so that a small sample is not biased to the first designs)
+    pool = []
     for ka in B.FLAT:
         for kb in B.FLAT:
-            sources.append(lambda ka=ka, kb=kb: K.flat_pairs(ka, kb, rng, 2))
+            pool += list(K.flat_pairs(ka, kb, rng, 40))
     bodies = list(K.polygons(rng, 4)) + list(K.polyhedra(rng, 4))
     for Kb in bodies:
         for kind in B.FLAT:
-            sources.append(lambda Kb=Kb, kind=kind: ((f, Kb, lab) for f, lab in K.flat_vs_convex(kind, Kb, rng, 3)))
-    sources.append(lambda: K.convex_pairs(rng, 12))
+            pool += [(f, Kb, lab) for f, lab in K.flat_vs_convex(kind, Kb, rng, 24)]
+    pool += list(K.convex_pairs(rng, 130))
+    rng.shuffle(pool)
     count = 0
     while count < n:
-        for src in sources:
-            for a, b, label in src():
+        for _once in (0,):
+            for a, b, label in pool:
                 if count >= n:
                     break
                 r_ab = O.intersect(a, b)
